@@ -239,12 +239,18 @@ func (h *harness) pipelineRound(ctx context.Context, round int) {
 	fail := func(what string, err error) {
 		r.Fail("", fmt.Sprintf("pipeline: %s: %v", what, err))
 	}
+	// Besides the two advisories, a decoy whose package name is right but
+	// whose kind is wrong: feeds that name source packages get an advisory for
+	// a source package called like the binary, feeds that name binary
+	// packages one for a binary called like the source.  It must never be
+	// reported (the kinds differ).
 	advPair := func(p pkgPair, rel string, bySource bool) []adv {
-		vn, fn := p.vulnBin, p.fixedBin
+		vn, fn, decoy := p.vulnBin, p.fixedBin, p.vulnSrc
 		if bySource {
-			vn, fn = p.vulnSrc, p.fixedSrc
+			vn, fn, decoy = p.vulnSrc, p.fixedSrc, p.vulnBin
 		}
-		return []adv{{pkg: vn, fixed: p.fixIn, id: "ADV-" + rel + "-vuln"}, {pkg: fn, fixed: p.fixIn, id: "ADV-" + rel + "-fixed"}}
+		return []adv{{pkg: vn, fixed: p.fixIn, id: "ADV-" + rel + "-vuln"}, {pkg: fn, fixed: p.fixIn, id: "ADV-" + rel + "-fixed"},
+			{pkg: decoy, fixed: p.fixIn, id: "ADV-" + rel + "-decoy-kind"}}
 	}
 
 	// ---- advisories of every ecosystem and release into one store
@@ -536,8 +542,17 @@ func (h *harness) pipelineRound(ctx context.Context, round int) {
 				r.Case("pipeline python non-normalised name "+pyRawV, true)
 				r.Count("pipeline:python-nonnormalised")
 				vr, err := matcher.Match(ctx, ir, defaultMatchers(ctx), st)
+				indexed := false
+				for _, pk := range ir.Packages {
+					if pk.Name == q.vulnBin {
+						indexed = true
+					}
+				}
 				if err != nil {
 					r.Fail("", "python: matching failed: "+err.Error())
+				} else if !indexed {
+					// not the listed finding: the scanner no longer reports the lower-cased METADATA name
+					r.Fail("", fmt.Sprintf("python scanner did not report METADATA `Name: %s` as %q", pyRawV, q.vulnBin))
 				} else if got := reportedFor(vr, q.vulnBin); len(got) == 0 {
 					r.Fail("pypi-name-normalization", fmt.Sprintf("METADATA `Name: %s` is indexed as %q; the advisory for the PEP 503 name %q is not reported", pyRawV, q.vulnBin, pep503(pyRawV)))
 				} else if len(got) != 1 || got[0] != "ADV-pypi-vuln" {
